@@ -527,7 +527,6 @@ func c03BackPatch(r *Run) {
 		return
 	}
 	var wType, wLen, child, patch *ssa.Call
-	var off *ssa.Call
 	allInstrs(fn, func(in ssa.Instruction) {
 		c, ok := in.(*ssa.Call)
 		if !ok {
@@ -541,7 +540,7 @@ func c03BackPatch(r *Run) {
 			wLen = c
 		case c.Call.StaticCallee() == nil && !c.Call.IsInvoke() && !isBuiltinCall(&c.Call):
 			child = c
-		case id.pkg == "encoding/binary" && id.name == "AppendUint32":
+		case id.pkg == "encoding/binary" && (id.name == "AppendUint32" || id.name == "PutUint32"):
 			patch = c
 		}
 	})
@@ -549,42 +548,99 @@ func c03BackPatch(r *Run) {
 		r.Bad("C03.T4", key, fn.Pos(), "Struct does not have the shape: header with placeholder length, children, back-patch of the length")
 		return
 	}
-	// patch target: buf[:off] where off = len(buf) taken between writeType and writeLength
-	sl, ok := patch.Call.Args[1].(*ssa.Slice)
-	if ok {
-		off, _ = sl.High.(*ssa.Call)
-	}
-	okOff := false
-	if off != nil {
-		if _, isLen := lenOperand(off); isLen && sl.Low == nil && dominatesInstr(wType, off) && dominatesInstr(off, wLen) {
-			okOff = true
+	isBufLoad := func(v ssa.Value) (*ssa.UnOp, bool) {
+		u, ok := v.(*ssa.UnOp)
+		if !ok || u.Op != token.MUL {
+			return nil, false
 		}
+		_, fld, ok := fieldAddrOf(u.X)
+		return u, ok && fld.Name() == "buf"
 	}
-	// value: uint32(len(buf) - off - 4) computed after the children
-	okVal := false
-	if cv, ok := patch.Call.Args[2].(*ssa.Convert); ok {
-		if s2, ok := cv.X.(*ssa.BinOp); ok && s2.Op == token.SUB {
-			if k, ok := constIntVal(s2.Y); ok && k == 4 {
-				if s1, ok := s2.X.(*ssa.BinOp); ok && s1.Op == token.SUB && off != nil && s1.Y == ssa.Value(off) {
-					if lc, ok := s1.X.(*ssa.Call); ok {
-						if _, isLen := lenOperand(lc); isLen && dominatesInstr(child, lc) {
-							okVal = true
-						}
+	// integer expressions as a*A + b*B + c, A = len(buf) between the type byte and the placeholder ("offset of the
+	// placeholder"), B = len(buf) after the children
+	type lin struct{ a, b, c int64 }
+	var eval func(v ssa.Value, d int) (lin, bool)
+	eval = func(v ssa.Value, d int) (lin, bool) {
+		if d > 8 {
+			return lin{}, false
+		}
+		if k, ok := constIntVal(v); ok {
+			return lin{0, 0, k}, true
+		}
+		switch x := v.(type) {
+		case *ssa.Convert:
+			return eval(x.X, d+1)
+		case *ssa.BinOp:
+			l, ok1 := eval(x.X, d+1)
+			rr, ok2 := eval(x.Y, d+1)
+			if !ok1 || !ok2 {
+				return lin{}, false
+			}
+			switch x.Op {
+			case token.ADD:
+				return lin{l.a + rr.a, l.b + rr.b, l.c + rr.c}, true
+			case token.SUB:
+				return lin{l.a - rr.a, l.b - rr.b, l.c - rr.c}, true
+			}
+		case *ssa.Call:
+			if y, isLen := lenOperand(x); isLen {
+				if ld, ok := isBufLoad(y); ok {
+					switch {
+					case dominatesInstr(child, ld):
+						return lin{0, 1, 0}, true
+					case dominatesInstr(wLen, ld) && dominatesInstr(ld, child):
+						return lin{1, 0, 4}, true
+					case dominatesInstr(wType, ld) && dominatesInstr(ld, wLen):
+						return lin{1, 0, 0}, true
 					}
 				}
 			}
 		}
+		return lin{}, false
+	}
+	// destination: a window of the buffer as it is AFTER the children (an earlier view may point into an array the
+	// children's appends have left behind), starting at the placeholder
+	dstIdx, valIdx := 1, 2
+	dst, ok := patch.Call.Args[dstIdx].(*ssa.Slice)
+	okDst, stale := false, false
+	if ok {
+		if ld, isLoad := isBufLoad(dst.X); isLoad {
+			if !dominatesInstr(child, ld) {
+				stale = true
+			}
+			pos := dst.Low
+			if callID(&patch.Call).name == "AppendUint32" {
+				// AppendUint32(buf[:A], v) writes at A (within capacity: the placeholder is there)
+				pos = dst.High
+				if dst.Low != nil {
+					pos = nil
+				}
+			}
+			if pos != nil {
+				if l, ok := eval(pos, 0); ok && l == (lin{1, 0, 0}) {
+					okDst = true
+				}
+			}
+		} else {
+			stale = true
+		}
+	}
+	okVal := false
+	if l, ok := eval(patch.Call.Args[valIdx], 0); ok && l == (lin{-1, 1, -4}) {
+		okVal = true
 	}
 	pl, _ := constIntVal(wLen.Call.Args[1])
 	switch {
-	case !okOff:
+	case stale:
+		r.Bad("C03.T4", key, patch.Pos(), "the structure length is patched through a view of the buffer taken before the children were written: once an append has moved the buffer to a larger array the patch lands in the old one and the structure is emitted with its placeholder length")
+	case !okDst:
 		r.Bad("C03.T4", key, patch.Pos(), "the structure length is not patched at the offset recorded just before the placeholder was written")
 	case !okVal:
 		r.Bad("C03.T4", key, patch.Pos(), "the patched structure length is not len(buffer after the children) - offset - 4")
 	case pl != 0:
 		r.Bad("C03.T4", key, wLen.Pos(), "placeholder length is not 0")
 	default:
-		r.OK("C03.T4", key, patch.Pos(), "length placeholder at off = len(buf) after tag+type; patched with len(buf)-off-4 after the children")
+		r.OK("C03.T4", key, patch.Pos(), "length placeholder at off = len(buf) after tag+type; patched in the current buffer with len(buf)-off-4 after the children")
 	}
 }
 
@@ -805,6 +861,29 @@ func c03AppendOnly(r *Run) {
 				// allowed: buf[:off] where off is a len() taken earlier (back-patch)
 				if y, ok := lenOperand(x.High); ok {
 					_ = y
+					return
+				}
+				// allowed: a window that is only overwritten in place (destination of PutUintNN / copy, or of an
+				// AppendUintNN whose result is dropped): nothing it covers becomes output that was not output before
+				onlyOverwritten := len(*x.Referrers()) > 0
+				for _, ref := range *x.Referrers() {
+					c, ok := ref.(*ssa.Call)
+					if !ok {
+						onlyOverwritten = false
+						continue
+					}
+					cid := callID(&c.Call)
+					switch {
+					case cid.pkg == "encoding/binary" && strings.HasPrefix(cid.name, "PutUint"):
+					case cid.pkg == "encoding/binary" && strings.HasPrefix(cid.name, "AppendUint") && len(*c.Referrers()) == 0:
+					default:
+						if b, isB := c.Call.Value.(*ssa.Builtin); isB && b.Name() == "copy" && c.Call.Args[0] == ssa.Value(x) {
+							continue
+						}
+						onlyOverwritten = false
+					}
+				}
+				if onlyOverwritten {
 					return
 				}
 				ord++
